@@ -100,6 +100,13 @@ def generate(seed, tier="quick"):
             bc = rng.choice([bc, ["list", [bc]], ["list", [["int", 1], bc]], ["tuple", [["int", 1], bc]], ["dict", [[["str", "k"], bc]]], ["dc", "DC", [["a", bc]]]])
             events.append({"t": "bind", "var": f"x{var_n}", "val": bc})
             events.append({"t": "cmp", "eid": f"e{eid_n}", "site": f"s{sid_n}", "var": f"x{var_n}", "style": "rec", "badcopy": True})
+            if rng.random() < 0.4:
+                # ... as one key of a dict sub-snapshot whose other key records normally: the rejected key must not be written at all
+                sites[f"s{sid_n}"]["op"] = "item"
+                sites[f"s{sid_n}"]["place"] = "func"  # two textual uses of one site
+                events[-1].update(key=["str", "rejected"], cop="eq")
+                eid_n += 1
+                events.append({"t": "cmp", "eid": f"e{eid_n}", "site": f"s{sid_n}", "vals": [["int", 2]], "key": ["str", "kept"], "cop": "eq", "style": "rec"})
         tests.append({"name": f"test_t{ti}", "events": events})
     if rng.random() < 0.3:
         # a == snapshot that already holds the value, compared again by the same object after a mutation (and once more after another one)
@@ -204,14 +211,18 @@ def execute(case, ctx):
             if a != ["E:UsageError"]:
                 viol("uncopyable", "deepcopy-unequal-value-not-rejected", f"comparison of BadCopy answered {a} instead of raising UsageError")
             c = after.get(("test_a.py", e["site"]))
-            if c is not None and c.arg_text is not None:
+            if e.get("key") is not None:
+                # sub-snapshot: the sibling key may be recorded, the rejected key must not appear
+                if c is not None and c.arg_text is not None and "rejected" in c.arg_text:
+                    viol("uncopyable", "rejected-sub-snapshot-key-written", f"site {e['site']} got {c.arg_text!r}")
+            elif c is not None and c.arg_text is not None:
                 viol("uncopyable", "deepcopy-unequal-value-recorded", f"site {e['site']} got {c.arg_text!r}")
     # ---- values written = the model's deep copies taken at event time
     mutated_after_cmp = False
     seen_cmp = set()
     for fn, tn, e in events:
         if e.get("t") == "cmp":
-            seen_cmp.add(e["var"])
+            seen_cmp.add(e.get("var"))
         elif e.get("t") == "mutate" and e["var"] in seen_cmp:
             mutated_after_cmp = True
     if mutated_after_cmp:
